@@ -28,6 +28,10 @@ func (n *RaftNode) CreateBackup() error {
 	n.Lock()
 	defer n.Unlock()
 
+	// no insertion may be applied between reading the version and taking the backup
+	n.applyMu.RLock()
+	defer n.applyMu.RUnlock()
+
 	v := n.balloon.Version()
 	metadata := fmt.Sprintf("%d", v-1)
 	err := n.db.Backup(metadata)
